@@ -17,9 +17,10 @@ STATEFUL = True
 THEOREMS = [
     "C19.std_shape",
     "C19.closure", "C19.build_ok_iff", "C19.declare_order_irrelevant",
-    "C19.options_iff", "C19.accepts_iff", "C19.added_to_all", "C19.std_accepted",
-    "C19.parse_accepts", "C19.parse_rejects",
-    "C19.default_cmd", "C19.default_is_first_public", "C19.command_dispatch", "C19.internal_name_gap",
+    "C19.options_iff", "C19.added_to_all",
+    "C19.command_dispatch", "C19.parse_accepts", "C19.parse_rejects", "C19.std_accepted", "C19.accepts_iff",
+    "C19.default_is_first_public", "C19.default_cmd_partial", "C19.internal_name_gap",
+    "C19.default_cmd_internal_name_counterexample",
 ]
 RULE = ("one case = one ArgParser: declarations (chains, forests, diamonds, redundant and repeated parents, '!' sets, "
         "whitespace/empty pieces in the parent list; malformed: unknown/forward/self parents, duplicate and empty names), "
@@ -273,24 +274,30 @@ def observable(i, line):
 
 # ------------------------------------------------------------------ oracle: the property itself
 def _o_decl(s):
-    """the documented syntax '!name:parent1,parent2' read independently"""
+    """the documented syntax '!name:parent1,parent2' read independently; the last component says whether the
+    string is written plainly (no blanks around parents, no empty pieces) — only then the statement speaks about it"""
     head, _, par = s.partition(":")
     internal = head.startswith("!")
     name = head[1:] if internal else head
-    parents = []
-    for p in par.split(","):
+    parents, plain = [], True
+    pieces = par.split(",") if par else []
+    if ":" in s and not par:
+        plain = False                      # 'name:' with an empty parent list
+    for p in pieces:
+        if p != p.strip() or not p:
+            plain = False
         p = p.strip()
         if p and p not in parents:
             parents.append(p)
-    return name, internal, parents
+    return name, internal, parents, plain
 
 
 def _o_graph(decl_strs):
     """(decls, valid, anc) — anc[c] = set of proper ancestors, computed from the declarations"""
     decls, seen, valid = [], [], True
     for s in decl_strs:
-        name, internal, parents = _o_decl(s)
-        if not name or name in seen or any(p not in seen for p in parents):
+        name, internal, parents, plain = _o_decl(s)
+        if not plain or not name or name in seen or any(p not in seen for p in parents):
             valid = False
         seen.append(name)
         decls.append((name, internal, parents))
@@ -435,7 +442,7 @@ def oracle(case, replies):
     decl_strs = [dec_str(a) for a in args[1:]]
     decls, valid, anc = _o_graph(decl_strs)
     if not valid:
-        return None                                   # outside the quantifier: no claim
+        return None       # outside the quantifier (malformed, or blanks / empty pieces in a parent list): no claim
     if replies[0] != "ok":
         return "construction: acyclic declaration %r -> %s" % (decl_strs, replies[0])
     names = [n for n, _, _ in decls]
@@ -484,7 +491,10 @@ def oracle(case, replies):
                             sess.line(l2)
                 want = sess.parse([dflt] + argv)
                 if rep != want:
-                    kind = "default-internal-name" if first in names else "default-command"
+                    # known finding c19b, and nothing else: the first word is the name of an internal '!' option
+                    # set, the code exits with 'invalid choice' and the default command would have accepted it
+                    c19b = (first in names and first not in public and rep == "err SystemExit 2" and want.startswith("ok "))
+                    kind = "default-internal-name" if c19b else "default-command"
                     return "%s: %r -> %s but %r -> %s" % (kind, argv, rep, [dflt] + argv, want)
                 cmd, rest = dflt, argv
             else:
@@ -649,6 +659,11 @@ def _gen_case(rng, tier, stream):
         elif how == "bang-bang":
             dstrs[i] = "!" + ("!" + dstrs[i] if not dstrs[i].startswith("!") else dstrs[i])
     lines = ["new " + " ".join([dflt] + [enc_str(s) for s in dstrs]), "deps"]
+    if meta.get("malformed") in ("unknown-parent", "forward", "self", "dup", "empty", "empty-internal", "no-commands"):
+        # the constructor raises: one option and one argv are enough to see that nothing was built
+        lines.append("opt * flag " + enc_str("--fa"))
+        lines.append(_parse_line([names[0]]))
+        return {"lines": lines, "meta": meta}
 
     # options
     placed = []
@@ -761,7 +776,7 @@ def _c19b_cases():
 
 
 def gen_cases(rng, tier):
-    n = 1500 if tier == "quick" else 40000
+    n = 5000 if tier == "quick" else 100000
     for c in _c19b_cases():
         yield c
     for i in range(n):
